@@ -82,6 +82,44 @@ def _chain_job(a):
                 return 'refused-write-changed-root how=%s raised=%s before=%r after=%r' % (how, outcome, base[:2], now[:2])
             if outcome == 'accepted':
                 return 'ok 0'          # (the library accepted it: nothing to say about atomicity; mismatches are refused elsewhere)
+    if a.get('valuewrite') is not None:
+        # the first write spelled `chain.value = v` (through the proxy of the last link, at any depth 1..len) — values that carry no content
+        # ('' , '^^', a bare segment name) included — must do what the equivalent assignment `parent.<last> = v` does on a fresh message:
+        # materialise the chain (C11: a write, whatever it writes, creates exactly the path read)
+        depth, v = a['valuewrite']
+        depth = max(1, min(depth, len(names)))
+        m2 = Message(a['structure'], version=a['version'])
+        m2.msh.msh_9 = 'ADT^A01'
+
+        def nav2(upto):
+            x = m2
+            for n in names[:upto]:
+                x = getattr(x, n)
+            return x
+        try:
+            nav(depth).value = v
+            o1 = 'ok'
+        except Exception as e:  # noqa
+            o1 = vlib.exc_name(e)
+        try:
+            setattr(nav2(depth - 1), names[depth - 1], v)
+            o2 = 'ok'
+        except Exception as e:  # noqa
+            o2 = vlib.exc_name(e)
+        s1, s2 = snapshot(m), snapshot(m2)
+        if o1 != 'ok' and s1 != base:
+            return 'refused-value-write-changed-root depth=%d value=%r raised=%s before=%r after=%r' % (depth, v, o1, base[:2], s1[:2])       # (C12; defect D36)
+        # (the two spellings may refuse with different exception classes; what must agree is whether they accept, and what they leave behind)
+        if (o1 == 'ok') != (o2 == 'ok') or s1[:2] != s2[:2]:
+            return 'value-write-differs-from-assignment depth=%d value=%r: .value -> %s %r ; assignment -> %s %r' % (depth, v, o1, s1[:2], o2, s2[:2])
+        if o1 == 'ok':
+            x = m
+            for n in names[:depth]:
+                p = getattr(x, n)
+                if len(p) != 1 or p[0].parent is not x or sum(1 for y in x.children if y is p[0]) != 1:
+                    return 'value-write-did-not-materialise %s (depth=%d value=%r)' % (n, depth, v)
+                x = p[0]
+        return 'ok 0'
     total = 0
     for rnd in range(a.get('rounds', 1)):
         value = a['value'] if rnd == 0 or a['value'] != 'X' else 'X%d' % rnd
